@@ -24,4 +24,6 @@ def run(P, R, L):
     K.grd12_cursor_counts_complete_reads(P, R, L)
     K.grd12_fully_consumed_is_exact(P, R, L)
     K.agr2_codec_pairs(P, R, L, groups=("log",))
+    R.clause("ORD-22", "the writer's block offset advances only after the bytes were written (a failed write leaves the writer consistent with the file)")
+    K.ord22_writer_offset_after_the_write(P, R, L)
     R.not_decided += ["block-boundary arithmetic beyond the guards above: fragment sizes, trailer padding width, offset bookkeeping after each emit (value level)"]
